@@ -8,6 +8,8 @@
 //!   worker = what the real packet_hash::hash_flow names for that frame (x = None: the pool discards it); the MODEL is
 //!   the CONCRETE TLS pool (coq/Model/PoolConcrete.v) under the schedule; run = real WorkerPool with that capacity,
 //!   result tokens (concrete::tls_pool_token) sorted and joined by ';'
+//!   kind letter suffixes (not read by the MODEL): <cap> = flow-table capacity; @<i> (TLS) = SLOW variant: the dispatcher sleeps
+//!   6 x timeout + 20 ms before frame i (nothing is queued meanwhile), the pool must still equal the sequential run
 //! run: real WorkerPool of that crate -> sorted result tokens joined by ','; `!pool …` when the pool's results
 //!   differ from the sequential ones as a multiset or in the order of any identity.
 #[path = "../../c07/src/concrete.rs"]
@@ -39,7 +41,7 @@ fn collect<T>(rx: &Receiver<T>, queues_empty: &dyn Fn() -> bool, text: &dyn Fn(&
     out
 }
 
-fn pool_run(kind: Kind, frames: &[Vec<u8>], workers: usize, batch: usize, timeout: u64, db: &Arc<Database>, cap: usize) -> Result<Vec<String>, String> {
+fn pool_run(kind: Kind, frames: &[Vec<u8>], workers: usize, batch: usize, timeout: u64, db: &Arc<Database>, cap: usize, pause_before: Option<usize>) -> Result<Vec<String>, String> {
     huginn_net_tcp::uptime::verif_hooks::set_frozen_clock(Some(CLOCK));
     match kind {
         Kind::Tcp => {
@@ -61,7 +63,11 @@ fn pool_run(kind: Kind, frames: &[Vec<u8>], workers: usize, batch: usize, timeou
         _ => {
             let (tx, rx) = channel();
             let pool = huginn_net_tls::WorkerPool::new(workers, 4096, batch, timeout, tx, cap, None).map_err(|e| e.to_string())?;
-            for f in frames { if let huginn_net_tls::DispatchResult::Dropped = pool.dispatch(f.clone()) { return Err("dropped".into()); } }
+            for (i, f) in frames.iter().enumerate() {
+                // slow sender: every queue drains and every worker sits idle for several receive timeouts
+                if pause_before == Some(i) { std::thread::sleep(Duration::from_millis(6 * timeout + 20)); }
+                if let huginn_net_tls::DispatchResult::Dropped = pool.dispatch(f.clone()) { return Err("dropped".into()); }
+            }
             let r = collect(&rx, &|| pool.stats().workers.iter().all(|w| w.queue_size == 0), &|x| tls_text(x));
             pool.shutdown();
             Ok(r)
@@ -169,14 +175,16 @@ fn run_l(toks: &[&str], workers: usize, batch: usize, timeout: u64) -> String {
 fn run(line: &str) -> String {
     let toks: Vec<&str> = line.split(' ').collect();
     let kind = Kind::from(&toks[0][..1]);
-    // optional flow-table capacity after the kind letter (e.g. l24): pool max_connections AND sequential capacity
-    let cap: usize = toks[0][1..].parse().unwrap_or(1000);
+    // optional flow-table capacity after the kind letter (e.g. l24): pool max_connections AND sequential capacity;
+    // optional @<i>: slow variant, pause before frame i
+    let (head, pause) = match toks[0].split_once('@') { Some((h, p)) => (h, p.parse::<usize>().ok()), None => (toks[0], None) };
+    let cap: usize = head[1..].parse().unwrap_or(1000);
     let workers: usize = toks[2].parse().unwrap(); let batch: usize = toks[4].parse().unwrap(); let timeout: u64 = toks[6].parse().unwrap();
     if toks[7] == "L" { return run_l(&toks, workers, batch, timeout); }
     let spos = toks.iter().position(|t| *t == "S").unwrap();
     let frames: Vec<Vec<u8>> = toks[8..spos].iter().map(|t| unhex(t.rsplit(':').next().unwrap())).collect();
     DB.with(|db| {
-        let pool = match pool_run(kind, &frames, workers, batch, timeout, db, cap) { Ok(r) => r, Err(e) => return format!("POOLERR {}", e) };
+        let pool = match pool_run(kind, &frames, workers, batch, timeout, db, cap, pause) { Ok(r) => r, Err(e) => return format!("POOLERR {}", e) };
         let seq: Vec<String> = seq_texts(kind, &frames, db, cap).into_iter().filter(|s| !s.is_empty()).collect();
         let mut ptoks: Vec<String> = pool.iter().map(|s| tok(s)).collect(); ptoks.sort();
         let mut out = ptoks.join(",");
@@ -266,6 +274,63 @@ fn gen(r: &mut Rng, tier: &Tier, out: &mut Vec<String>) {
             out.push(l);
         }
     }
+    // HTTP pool, several workers: connections WITHOUT any TCP option (an IPv4 SYN / bare ACK / FIN is then exactly link
+    // header + 40 bytes, the smallest frame the flow hash must still recognise) next to ordinary ones
+    for case in 0..tier.scale(12, 150) {
+        let n = 3 + r.below(4) as usize;
+        let mut conns = Vec::new();
+        for j in 0..n {
+            let mut sp = ConnSpec::new(if r.chance(1, 5) { 2 } else { 0 }, j % 4 == 3, (case as u64 * 23 + j as u64 * 53) % 5000 + j as u64 * 6000);
+            sp.bare = j < 2 || r.chance(1, 2);
+            conns.push(connection(r, &sp, 1_000_000));
+        }
+        let tr = interleave(r, &conns, case % 3 == 0);
+        let workers = *r.pick(&[2usize, 3, 4, 7, 8, 16]);
+        let batch = *r.pick(&[1usize, 4, 32]); let timeout = *r.pick(&[1u64, 5, 20]);
+        extra_p_line(r, &db, Kind::Http, "h".to_string(), &conns, &tr, workers, batch, timeout, out);
+    }
+    // TLS pool, SLOW sender: a ClientHello in two or three segments; after its first segment the dispatcher sleeps for
+    // several receive timeouts with nothing queued, then sends the rest
+    for case in 0..tier.scale(6, 60) {
+        let n = 1 + r.below(3) as usize;
+        let mut conns = Vec::new();
+        for j in 0..n {
+            let mut sp = ConnSpec::new(1, j % 3 == 2, (case as u64 * 29 + j as u64 * 59) % 5000 + j as u64 * 6000);
+            if j == 0 { sp.force_segs = Some(2 + r.below(2) as usize); }
+            conns.push(connection(r, &sp, 1_000_000));
+        }
+        let tr = interleave(r, &conns, false);
+        // frame index of the second data segment of connection 0 (packets 0,1,2 are the handshake, 3 the first segment)
+        let mut seen = 0usize; let mut pause = 0usize;
+        for (i, (ci, _)) in tr.iter().enumerate() { if *ci == 0 { if seen == 4 { pause = i; } seen += 1; } }
+        if conns[0].len() < 6 { continue; }     // the random cuts collapsed to one segment
+        let workers = *r.pick(&[1usize, 2, 4, 16]);
+        let batch = *r.pick(&[1usize, 32]); let timeout = *r.pick(&[5u64, 10]);
+        extra_p_line(r, &db, Kind::Tls, format!("l@{}", pause), &conns, &tr, workers, batch, timeout, out);
+    }
+}
+
+/// one P line (as the main loop of `gen` builds it) for an extra stream of cases
+#[allow(clippy::too_many_arguments)]
+fn extra_p_line(r: &mut Rng, db: &Database, kind: Kind, tag: String, conns: &[Vec<Frame>], tr: &[(usize, Frame)], workers: usize, batch: usize, timeout: u64, out: &mut Vec<String>) {
+    let frames: Vec<Vec<u8>> = tr.iter().map(|(_, (f, _))| f.clone()).collect();
+    let seq: Vec<String> = seq_texts(kind, &frames, db, 1000).iter().map(|s| tok(s)).collect();
+    let mut ids: Vec<String> = Vec::new();
+    let mut conn_pos = vec![0usize; conns.len()];
+    let mut keys = Vec::new();
+    for (ci, _) in tr {
+        let j = conn_pos[*ci]; conn_pos[*ci] += 1;
+        let from_server = j == 1 || (conns[*ci].len() >= 2 && j == conns[*ci].len() - 2 && is_response(&conns[*ci][j].0));
+        let ident = match kind { Kind::Http => format!("{}", ci), _ => format!("{}:{}", ci, from_server) };
+        let k = match ids.iter().position(|x| *x == ident) { Some(p) => p, None => { ids.push(ident); ids.len() - 1 } };
+        keys.push(k);
+    }
+    let mut line = format!("{} W {} B {} T {} P", tag, workers, batch, timeout);
+    for (i, f) in frames.iter().enumerate() { line.push_str(&format!(" {}:{}:{}", keys[i], seq[i], hex(f))); }
+    line.push_str(" S");
+    let mut left = frames.len();
+    while left > 0 { if r.chance(2, 3) { line.push_str(" d"); left -= 1; } else { line.push_str(&format!(" w{}", r.below(workers as u64))); } }
+    out.push(line);
 }
 fn is_response(frame: &[u8]) -> bool { frame.windows(8).any(|w| w == b"HTTP/1.1" ) && frame.windows(6).any(|w| w == b"200 OK") }
 
